@@ -212,6 +212,24 @@ def dusty(u, eps=1e-17):
     return d
 
 
+def on_root_cut(cls, us):
+    """Some listed matrix has x = 0 and z = -1 + (negative rounding dust)i, (x, z) as `_get_x_z` reads them: the branch
+    cut of the principal fourth root in `_compute_gate_a`, where the model (which clears imaginary dust before it
+    starts) legitimately picks the other root."""
+    if cls == "LdMcSpecialUnitary":
+        return False
+    for u in us:
+        if not is_real_diag_type(u):
+            continue
+        if _real(u[0, 1]) and _real(u[1, 0]):
+            x, z = u[0, 1].real, u[1, 1]
+        else:
+            x, z = -u[0, 1].real, u[1, 1] - 1j * u[0, 1].imag
+        if x == 0 and z.real < 0 and -IMAG_TOL <= z.imag < 0:
+            return True
+    return False
+
+
 def region(cls, us, k):
     """Input region used in failure keys (narrow, computed from the input)."""
     tags = []
@@ -429,7 +447,12 @@ def record(ctx, case, r):
         if r["exc"].startswith("ValueError"):
             ctx.tie(tie_op(cls, us, k, cs), ["REJECT"], label=f"{cls} {fam} k={k} cs={cs} (raises)")
         return
-    ctx.tie(tie_op(cls, us, k, cs), r["lines"], label=f"{cls} {fam} k={k} cs={cs}")
+    if on_root_cut(cls, us):
+        # z = -1 - (dust)i with x = 0: the code takes the principal fourth root of z as it is (e^{-i pi/4}), the driver
+        # clears dust <= 1e-12 first (e^{+i pi/4}).  Both are fourth roots of -1 and give the same operator: oracle only.
+        ctx.count("diversity:phase:fourth-root cut, negative imaginary dust (oracle only)")
+    else:
+        ctx.tie(tie_op(cls, us, k, cs), r["lines"], label=f"{cls} {fam} k={k} cs={cs}")
     if r["width"] != k + len(us):
         ctx.fail(base % "width", f"definition has {r['width']} qubits, expected {k + len(us)}", rep)
     if r["err"] is None:
@@ -917,6 +940,844 @@ def underflow_probe(ctx):
     run_cases(ctx, cases)
 
 
+# ------------------------------------------------------------------------------------------------
+# input-diversity pass: the FORM of otherwise ordinary inputs (element type / container of the matrix, sign and phase
+# structure, call form and placement on a host circuit), for every entry point of part A
+# ------------------------------------------------------------------------------------------------
+#   form                                        x entry point                                  -> where generated
+#   1 element types: nested list of ints / floats / Python complex, tuple of tuples, list of numpy scalars, int64,
+#     float64 (real dtype, also -RY and signed zeros), float32 / complex64 (exact members 0, +-1, +-i, (+-1+-i)/2 and
+#     inexact ones: reduced-precision rule), complex128 with -0.0 real and imaginary parts, np.matrix, read-only array,
+#     non-contiguous view, Fortran order
+#                                               x Ldmcsu, LdMcSpecialUnitary, MultiTargetMCSU2 ([U] and bare U), one
+#                                                 of the four static helpers on a permuted host      -> div_elem_specs
+#                                               x _get_x_z, _compute_gate_a (int, float, complex, numpy scalars),
+#                                                 get_abc_operators (int / numpy angles, >= 2 pi)    -> diversity_helpers
+#     list of unitaries as list / tuple / 3-D ndarray, mixed element types, the same array object twice, nt = 2, 3
+#                                               x MultiTargetMCSU2, multi_target_mcsu2              -> div_mt_list_specs
+#   3 sign / phase: rotations by 2pi+a, -(2pi+a), 3pi, -3pi, +-4pi, 4pi+a, -2pi (2pi: probes()) about y, z, x and an
+#     XZ axis; -U of the general class; lists whose angles sum to 2pi; +-iX, +-iZ, iY, -I lists
+#                                               x the three classes (tie + oracle through run_cases) -> div_phase_cases
+#                                               x the four static helpers                            -> div_call_specs
+#   4 call forms: ctrl_state None / all ones / explicit / int, positional / keyword / omitted; gate appended twice;
+#     copy() before .definition; inverse(); definition.to_instruction() / to_gate() / compose(); one array object for two
+#     gates; host larger than needed with permuted, non-ascending, non-contiguous qubits as ints / Qubits / register /
+#     reversed register slice, hosts built from three registers in three orders, target in the middle, targets in
+#     non-ascending order, target as Qubit / int / one-element list / register
+#                                               x the three classes and the four static helpers      -> div_call_specs
+#   5 sizes: k = 1..5 (k_1, k_2 = 1, 2, 3: plain CX, Toffoli, C3X halves; LdMcSpecialUnitary < 3, >= 3), nt = 1, 2, 3 x
+#     odd / even k, all with the new forms only (the size sweep itself is boundary_cases)            -> all of the above
+#   Tie: whenever the converted input denotes the same numbers as a complex128 matrix and the gate sits in a circuit
+#   as built (append / static helper / to_instruction / compose / copy), the flattened host - wires relabelled to the
+#   listed order - is diffed against the model op of the canonical matrix.  Oracle only: float32 / complex64 (values
+#   differ at 1e-8), inverse(), twice / reuse (two gates), rejected forms.
+#   Forms the library does not claim (recorded as diversity:...:unsupported-form-raises-<Exc>, never silently wrong):
+#   a bare nested list handed to MultiTargetMCSU2 (read as a list of rows: ValueError), tuple / 3-D ndarray of
+#   unitaries (ValueError from check_u2), int ctrl_state of Ldmcsu, Ldmcsu.ldmcsu and the bare-matrix branch of
+#   multi_target_mcsu2 with k >= 2 (`ctrl_state[::-1]` -> TypeError; annotated `str`, not documented),
+#   definition.to_gate() (QiskitError: the definitions hold sub-circuits appended as Instructions).
+#   Regression of fixed findings, judged by the ordinary operator oracle (and tied): nested list / tuple / list of
+#   numpy scalars as THE matrix of Ldmcsu, Ldmcsu.ldmcsu, MultiTargetMCSU2(tuple matrix), multi_target_mcsu2(bare
+#   matrix) at every k (F-C04-14, group regression:F-C04-14); int and np.int64 ctrl_state of LdMcSpecialUnitary and
+#   LdMcSpecialUnitary.ldmcsu (apply_ctrl_state, F-C04-13, group regression:F-C04-13); nested list / tuple / list of
+#   numpy scalars as ELEMENTS of MultiTargetMCSU2's list, class and multi_target_mcsu2, k = 1..5, nt = 1..3 (F-C04-15,
+#   group regression:F-C04-15); int and np.int64 ctrl_state of MultiTargetMCSU2 (list and bare matrix) and of
+#   multi_target_mcsu2 with a list (F-C04-16, group regression:F-C04-16).
+
+SEQ_FORMS = ("list-int", "list-float", "list-complex", "tuple", "npscalars")
+REDUCED_FORMS = ("float32", "complex64")
+DIV_CLASSES = ("Ldmcsu", "LdMcSpecialUnitary", "MultiTargetMCSU2")
+TOL_REDUCED = 1e-5
+QHALF = np.array([[0.5 + 0.5j, -0.5 + 0.5j], [0.5 + 0.5j, 0.5 - 0.5j]])    # general SU(2), exact in complex64
+R345 = np.array([[0.6, -0.8], [0.8, 0.6]], dtype=complex)
+
+
+def _nz(v):
+    return -0.0 if v == 0 else float(v)
+
+
+def to_form(m, tag):
+    """The canonical complex128 matrix `m` in the element type / container `tag` (the same numbers)."""
+    m = np.array(m, dtype=complex)
+    is_real = bool(np.all(m.imag == 0))
+    if tag in ("list-int", "list-float", "int64", "float64", "float32", "float64-negzero") and not is_real:
+        raise RuntimeError(f"harness: form {tag} needs a real matrix")
+    if tag == "c128":
+        return m.copy()
+    if tag == "list-int":
+        return [[int(round(v)) for v in row] for row in m.real]
+    if tag == "list-float":
+        return [[float(v) for v in row] for row in m.real]
+    if tag == "list-complex":
+        return [[complex(v) for v in row] for row in m]
+    if tag == "tuple":
+        return tuple(tuple((float(v.real) if is_real else complex(v)) for v in row) for row in m)
+    if tag == "npscalars":
+        return [[(np.float64(v.real) if is_real else np.complex128(v)) for v in row] for row in m]
+    if tag == "int64":
+        return np.array(np.round(m.real), dtype=np.int64)
+    if tag == "float64":
+        return np.array(m.real, dtype=np.float64)
+    if tag == "float32":
+        return np.array(m.real, dtype=np.float32)
+    if tag == "complex64":
+        return m.astype(np.complex64)
+    if tag == "c128-negzero":
+        return np.array([[complex(_nz(e.real), _nz(e.imag)) for e in row] for row in m])
+    if tag == "float64-negzero":
+        return np.array([[_nz(v) for v in row] for row in m.real], dtype=np.float64)
+    if tag == "matrix":
+        return np.matrix(m.real if is_real else m)
+    if tag == "readonly":
+        a = np.array(m.real if is_real else m)
+        a.flags.writeable = False
+        return a
+    if tag == "view":
+        big = np.zeros((4, 4), dtype=complex)
+        big[::2, ::2] = m
+        return big[::2, ::2]
+    if tag == "fortran":
+        return np.asfortranarray(m)
+    raise RuntimeError("harness: unknown form " + tag)
+
+
+def snapshot(x):
+    """Bit-exact picture of a caller-owned input (element types, signed zeros), to see that the library left it alone."""
+    if isinstance(x, np.ndarray):
+        return ("nd", type(x).__name__, str(x.dtype), tuple(x.shape), np.ascontiguousarray(x).tobytes())
+    if isinstance(x, (list, tuple)):
+        return (type(x).__name__, tuple(snapshot(e) for e in x))
+    return (type(x).__name__, repr(x))
+
+
+def unflat(fl):
+    return np.array([complex(fl[2 * i], fl[2 * i + 1]) for i in range(4)]).reshape(2, 2)
+
+
+def host_ref(us, k, cs, n_host, ctrl, tgt):
+    """Ideal operator on an `n_host`-qubit host: us[j] on qubit tgt[j] iff qubit ctrl[i] reads cs[::-1][i] for every i
+    (None: all ones); identity on every other basis state and on every other qubit."""
+    nt = len(us)
+    want = [int(cs[::-1][i]) if cs is not None else 1 for i in range(k)]
+    full = np.eye(1)
+    for u in us:
+        full = np.kron(u, full)
+    dim = 2 ** n_host
+    m = np.zeros((dim, dim), dtype=complex)
+    for b in range(dim):
+        if all(((b >> ctrl[i]) & 1) == want[i] for i in range(k)):
+            h = sum(((b >> tgt[j]) & 1) << j for j in range(nt))
+            base = b
+            for j in range(nt):
+                base &= ~(1 << tgt[j])
+            for h2 in range(2 ** nt):
+                b2 = base | sum(((h2 >> j) & 1) << tgt[j] for j in range(nt))
+                m[b2, b] += full[h2, h]
+        else:
+            m[b, b] = 1.0
+    return m
+
+
+def _resolve(host, rr, q):
+    """(argument handed to the library, list of Qubit objects in the listed order) for a qubit-list spec."""
+    kind = q["kind"]
+    if kind == "register":
+        reg = rr[q["reg"]]
+        return reg, list(reg)
+    if kind == "slice":
+        a, b, c = q["sl"]
+        qs = rr[q["reg"]][slice(a, b, c)]
+        return qs, list(qs)
+    qs = [rr[nm][i] for nm, i in q["q"]]
+    if kind in ("ints", "list-int"):
+        return [host.find_bit(x).index for x in qs], qs
+    if kind in ("qubits", "list-qubit"):
+        return list(qs), qs
+    if kind == "tuple-qubit":
+        return tuple(qs), qs
+    if kind == "int":
+        return host.find_bit(qs[0]).index, qs
+    if kind == "qubit":
+        return qs[0], qs
+    raise RuntimeError("harness: unknown qubit form " + kind)
+
+
+def _flat_arg(a):
+    from qiskit.circuit import Qubit
+    return [a] if isinstance(a, (int, Qubit)) else list(a)
+
+
+def div_eval(spec):
+    """Worker: rebuild the input in its form, place the gate as the call form says, Operator of the host versus the ideal
+    on the listed qubits in the listed order (identity elsewhere).  Returns a plain dict."""
+    from qclib.gates.ldmcsu import Ldmcsu, LdMcSpecialUnitary
+    from qclib.gates.multitargetmcsu2 import MultiTargetMCSU2
+    from qiskit import QuantumCircuit, QuantumRegister
+    from qiskit.quantum_info import Operator
+    entry, k, cs, use = spec["entry"], spec["k"], spec.get("cs"), spec.get("use", "append")
+    raw = [to_form(unflat(m), f) for m, f in zip(spec["unitaries"], spec["forms"])]
+    if spec.get("same_object"):
+        raw = [raw[0]] * len(raw)
+    up = [np.array(x, dtype=complex) for x in raw]
+    nt = len(raw)
+    wrap = spec.get("wrap", "list" if entry.startswith("MultiTargetMCSU2") else "single")
+    arg = {"list": list(raw), "tuple": tuple(raw), "ndarray3": np.array(up), "single": raw[0]}[wrap]
+    snap = snapshot(arg)
+    rr = {nm: QuantumRegister(sz, nm) for nm, sz in spec["regs"]}
+    host = QuantumCircuit(*[rr[nm] for nm, _ in spec["regs"]])
+    carg, cqs = _resolve(host, rr, spec["ctrl"])
+    targ, tqs = _resolve(host, rr, spec["tgt"])
+    ctrl_idx = [host.find_bit(q).index for q in cqs]
+    tgt_idx = [host.find_bit(q).index for q in tqs]
+    labels = [99] * host.num_qubits
+    for pos, i in enumerate(ctrl_idx + tgt_idx):
+        labels[i] = pos
+    cs_str = format(cs, f"0{k}b") if isinstance(cs, int) else cs
+    if spec.get("cs_type") == "np.int64":
+        cs = np.int64(cs)
+    how = spec.get("cs_how", "kw")
+    exact = all(np.array_equal(u, unflat(m)) for u, m in zip(up, spec["unitaries"]))
+    out = {"exc": None, "err": None, "ties": [], "mutated": False, "up": [mflat(u) for u in up], "cs_str": cs_str, "exact": exact,
+           "n_host": host.num_qubits, "ctrl_idx": ctrl_idx, "tgt_idx": tgt_idx}
+    tcls = entry.split(".")[0]
+    if tcls == "MultiTargetMCSU2" and wrap == "single":
+        tcls = "Ldmcsu"                       # the bare-matrix form wraps Ldmcsu
+
+    def gate(cls=None):
+        cls = cls or entry
+        if cls == "MultiTargetMCSU2":
+            if how == "pos":
+                return MultiTargetMCSU2(arg, k, nt, cs)
+            if how == "omit":
+                return MultiTargetMCSU2(arg, k, num_target=nt)
+            return MultiTargetMCSU2(arg, num_controls=k, num_target=nt, ctrl_state=cs)
+        ctor = Ldmcsu if cls == "Ldmcsu" else LdMcSpecialUnitary
+        if how == "pos":
+            return ctor(arg, k, cs)
+        if how == "omit":
+            return ctor(arg, k)
+        return ctor(arg, k, ctrl_state=cs)
+    try:
+        with warnings.catch_warnings():
+            warnings.simplefilter("ignore")
+            if entry in DIV_CLASSES:
+                qargs = _flat_arg(carg) + _flat_arg(targ)
+                g = gate()
+                if use == "append":
+                    host.append(g, qargs)
+                elif use == "twice":
+                    host.append(g, qargs)
+                    host.append(g, qargs)
+                elif use == "copy-first":
+                    c = g.copy()
+                    host.append(c, qargs)
+                    host.append(g, qargs)
+                    out["ties"] = [skeleton(tcls, g.definition, k), skeleton(tcls, c.definition, k)]
+                elif use == "inverse":
+                    host.append(g.inverse(), qargs)
+                elif use == "to_instruction":
+                    host.append(g.definition.to_instruction(), qargs)
+                elif use == "to_gate":
+                    host.append(g.definition.to_gate(), qargs)
+                elif use == "compose":
+                    host.compose(g.definition, qubits=qargs, inplace=True)
+                elif use == "reuse":
+                    g2 = gate("LdMcSpecialUnitary" if entry == "Ldmcsu" else "Ldmcsu")
+                    host.append(g, qargs)
+                    host.append(g2, qargs)
+                else:
+                    raise RuntimeError("harness: unknown use " + use)
+            else:
+                helper = {"Ldmcsu.ldmcsu": Ldmcsu.ldmcsu, "LdMcSpecialUnitary.ldmcsu": LdMcSpecialUnitary.ldmcsu,
+                          "MultiTargetMCSU2.multi_target_mcsu2": MultiTargetMCSU2.multi_target_mcsu2}[entry]
+                for _ in range(2 if use == "twice" else 1):
+                    if how == "pos":
+                        helper(host, arg, carg, targ, cs)
+                    elif how == "omit":
+                        helper(host, arg, carg, targ)
+                    elif how == "allkw":
+                        helper(circuit=host, unitary=arg, controls=carg, target=targ, ctrl_state=cs)
+                    else:
+                        helper(host, arg, carg, targ, ctrl_state=cs)
+            opm = Operator(host).data
+            if not out["ties"] and use in ("append", "to_instruction", "to_gate", "compose"):
+                out["ties"] = [skeleton(tcls, host, k, wires=labels)]
+    except Exception as e:
+        out["exc"] = type(e).__name__ + ": " + str(e)[:140]
+        out["mutated"] = snapshot(arg) != snap
+        return out
+    out["mutated"] = snapshot(arg) != snap
+    mult = {"twice": 2, "copy-first": 2, "reuse": 2, "inverse": -1}.get(use, 1)
+    exp = [u.conj().T if mult == -1 else np.linalg.matrix_power(u, mult) for u in up]
+    ref = host_ref(exp, k, cs_str, host.num_qubits, ctrl_idx, tgt_idx)
+    out["err"] = float(np.abs(opm - ref).max()) if opm.shape == ref.shape else float("inf")
+    return out
+
+
+def div_allowed_exc(spec):
+    """The exception an UNSUPPORTED form may end in (None: the form is supported and must work)."""
+    entry, k, use = spec["entry"], spec["k"], spec.get("use", "append")
+    cls = entry.split(".")[0]
+    wrap = spec.get("wrap", "list" if cls == "MultiTargetMCSU2" else "single")
+    if cls == "MultiTargetMCSU2" and wrap in ("tuple", "ndarray3"):
+        return "ValueError"                                 # not a list: taken for ONE matrix of the wrong shape
+    if cls == "MultiTargetMCSU2" and wrap == "single" and any(f in SEQ_FORMS and f != "tuple" for f in spec["forms"]):
+        return "ValueError"                                 # a nested list is read as a list of 1-D "unitaries"
+    if isinstance(spec.get("cs"), int) and k >= 2 and (cls == "Ldmcsu" or (entry.endswith("multi_target_mcsu2") and wrap == "single")):
+        # Ldmcsu slices the pattern itself (`ctrl_state[::-1]`) and annotates it `str`: not a documented form.  The
+        # bare-matrix branch of the static helper hands the int straight to Ldmcsu.  LdMcSpecialUnitary (apply_ctrl_state,
+        # F-C04-13) and the MultiTargetMCSU2 constructor (documented "decimal or bitstring", F-C04-16) convert: oracle.
+        return "TypeError"
+    # nested sequences as THE matrix of Ldmcsu (F-C04-14) and as elements of MultiTargetMCSU2's list (F-C04-15) are
+    # converted with np.asarray: operator oracle, no exception allowed
+    if use == "to_gate":
+        return "QiskitError"
+    return None
+
+
+def div_key(spec):
+    call = "/".join([spec.get("use", "append"), spec["ctrl"]["kind"], spec["tgt"]["kind"], "cs-" + spec.get("cs_how", "kw"),
+                     "host=" + "+".join(f"{nm}{sz}" for nm, sz in spec["regs"])])
+    form = "+".join(spec["forms"]) + (":" + spec["wrap"] if "wrap" in spec else "") + \
+        (":same-object" if spec.get("same_object") else "")
+    return f"diversity:{spec['entry']}:%s:{form}:{call}:{spec['family']}:k={spec['k']}:cs={spec.get('cs')}{'(np.int64)' if spec.get('cs_type') else ''}"
+
+
+def div_record(ctx, spec, r):
+    key = div_key(spec)
+    entry, k = spec["entry"], spec["k"]
+    reduced = any(f in REDUCED_FORMS for f in spec["forms"])
+    ctx.count("diversity:" + spec["group"])
+    what = f"{entry} [{spec['family']} as {'+'.join(spec['forms'])}, k={k}, ctrl_state={spec.get('cs')!r}, {spec.get('use', 'append')}]"
+    allowed = div_allowed_exc(spec)
+    if r["mutated"]:
+        ctx.fail(key % "caller-input-modified", what + ": the caller's matrix / list was modified", spec)
+    if r["exc"] is not None:
+        name = r["exc"].split(":")[0]
+        if reduced and not r["exact"] and name == "ValueError" and "U(2)" in r["exc"]:
+            # the rounded entries are not unitary to the library's tolerance: the documented rejection
+            ctx.count(f"diversity:{entry}:{'+'.join(spec['forms'])}:reduced-precision-input-rejected-ValueError")
+            ctx.ok(key % "rejected-not-unitary", nontrivial=False)
+        elif allowed == name:
+            ctx.count(f"diversity:{entry}:{'+'.join(sorted(set(spec['forms'])))}:{spec.get('use', 'append')}"
+                      f"{':int-ctrl_state' if isinstance(spec.get('cs'), int) else ''}:unsupported-form-raises-{name}")
+            ctx.ok(key % ("unsupported-" + name), nontrivial=False)
+        else:
+            ctx.fail(key % ("raises-" + name), what + " raised " + r["exc"], dict(spec, observed=r["exc"]))
+        return
+    tol = TOL_REDUCED if reduced else TOL
+    if not r["err"] <= tol:
+        ctx.fail(key % "operator-mismatch", what + f": max |Operator(host) - ideal on the listed qubits| = {r['err']:.3e} "
+                 f"(tolerance {tol:g}; controls {r['ctrl_idx']}, targets {r['tgt_idx']} of {r['n_host']} host qubits)",
+                 dict(spec, observed_err=r["err"]))
+    else:
+        if reduced and r["err"] > TOL:
+            ctx.count(f"diversity:note:{entry}:{'+'.join(spec['forms'])}:single-precision-result(err>1e-7)")
+        ctx.ok(key % "ok", nontrivial=k >= 2,
+               sample={"entry": entry, "forms": spec["forms"], "k": k, "use": spec.get("use", "append"), "err": r["err"]})
+    if spec.get("tie", True) and not reduced and r["ties"]:
+        tcls = entry.split(".")[0]
+        if tcls == "MultiTargetMCSU2" and spec.get("wrap", "list") == "single":
+            tcls = "Ldmcsu"
+        up = [unflat(m) for m in r["up"]]
+        if tcls == "MultiTargetMCSU2" and not all(is_real_diag_type(u) for u in up):
+            return
+        for lines in r["ties"]:
+            ctx.tie(tie_op(tcls, up, k, r["cs_str"]), lines, label="diversity " + key % "tie")
+
+
+def div_run(ctx, specs):
+    from concurrent.futures import ProcessPoolExecutor
+    import multiprocessing as mp
+    workers = int(os.environ.get("C04_WORKERS", "12"))
+    if workers <= 1 or len(specs) < 8:
+        results = [div_eval(s) for s in specs]
+    else:
+        with ProcessPoolExecutor(max_workers=workers, mp_context=mp.get_context("fork")) as ex:
+            results = list(ex.map(div_eval, specs, chunksize=8))
+    for s, r in zip(specs, results):
+        div_record(ctx, s, r)
+
+
+def div_spec(group, entry, fam, us, forms, k, cs=None, **kw):
+    nt = len(us)
+    spec = {"part": "su2", "probe": "diversity", "group": group, "entry": entry, "family": fam,
+            "unitaries": [mflat(u) for u in us], "forms": list(forms), "k": k, "cs": cs,
+            "regs": [["q", k + nt]], "ctrl": {"kind": "ints", "q": [["q", i] for i in range(k)]},
+            "tgt": {"kind": "ints", "q": [["q", k + j] for j in range(nt)]}, "use": "append", "cs_how": "kw"}
+    if entry.endswith(".ldmcsu") or (entry.endswith("multi_target_mcsu2") and kw.get("wrap") == "single"):
+        spec["tgt"]["kind"] = "int"
+    spec.update(kw)
+    return spec
+
+
+def div_layout(r, k, nt, idle, kind_c="ints", kind_t=None):
+    """A host `q` of k + nt + idle qubits; controls in non-ascending order, not contiguous where possible, a target below
+    the highest control (in the middle of the host), targets in non-ascending order."""
+    n = k + nt + idle
+    while True:
+        pos = r.sample(range(n), k + nt)
+        c, t = pos[:k], pos[k:]
+        if (k == 1 or c != sorted(c)) and min(t) < max(c) and (nt == 1 or t != sorted(t)):
+            break
+    if kind_t is None:
+        kind_t = "ints" if kind_c in ("ints", "list-int") else "qubits"
+    return {"regs": [["q", n]], "ctrl": {"kind": kind_c, "q": [["q", i] for i in c]},
+            "tgt": {"kind": kind_t, "q": [["q", i] for i in t]}}
+
+
+def div_reg_host(r, k, nt, order, ctrl_form, tgt_form):
+    """Host built from three registers c (k or k + 1 qubits), t (nt or nt + 1), a (2 idle) in the order `order`."""
+    extra_c = 1 if ctrl_form in ("slice-lo", "slice-rev-part") else 0
+    extra_t = 1 if tgt_form in ("qubit-last", "slice-rev-part") else 0
+    sizes = {"c": k + extra_c, "t": nt + extra_t, "a": 2}
+    lay = {"regs": [[nm, sizes[nm]] for nm in order]}
+    lay["ctrl"] = {"register": {"kind": "register", "reg": "c"},
+                   "slice-rev": {"kind": "slice", "reg": "c", "sl": [None, None, -1]},
+                   "slice-lo": {"kind": "slice", "reg": "c", "sl": [1, None, None]},
+                   "slice-rev-part": {"kind": "slice", "reg": "c", "sl": [k - 1, None, -1]},
+                   "qubits": {"kind": "qubits", "q": [["c", i] for i in r.sample(range(k), k)]}}[ctrl_form]
+    lay["tgt"] = {"register": {"kind": "register", "reg": "t"},
+                  "slice-rev": {"kind": "slice", "reg": "t", "sl": [None, None, -1]},
+                  "slice-rev-part": {"kind": "slice", "reg": "t", "sl": [nt - 1, None, -1]},
+                  "qubit": {"kind": "qubit", "q": [["t", 0]]}, "qubit-last": {"kind": "qubit", "q": [["t", nt]]},
+                  "int": {"kind": "int", "q": [["t", 0]]}, "list-qubit": {"kind": "list-qubit", "q": [["t", j] for j in range(nt)][::-1]},
+                  "list-int": {"kind": "list-int", "q": [["t", j] for j in range(nt)][::-1]}}[tgt_form]
+    return lay
+
+
+def div_pattern(r, k, i):
+    """ctrl_state rotating over None / all ones / a mixed pattern / random."""
+    return [None, "1" * k, mixed_pattern(k), "".join(r.choice("01") for _ in range(k))][i % 4]
+
+
+def div_pattern_call(r, k, i):
+    """ctrl_state for the call-form cases: mostly patterns with both a 0 and a 1 (a permuted / dropped / reversed
+    pattern or qubit list is invisible under None and all ones), read differently from both ends where k allows."""
+    if i % 4 == 1:
+        return None
+    if i % 4 == 3:
+        return "1" * k
+    if k == 1:
+        return "0"
+    while True:
+        p = "".join(r.choice("01") for _ in range(k))
+        if "0" in p and "1" in p and p != p[::-1]:
+            return p
+        if k == 2 and p in ("01", "10"):
+            return p
+
+
+def div_elem_specs(ctx):
+    """Family 1: every element type / container of the 2x2 matrix through every entry point."""
+    r = ctx.rng
+    fams = families(r)
+    minus_iy, plus_iy = np.array([[0, -1], [1, 0]], dtype=complex), np.array([[0, 1], [-1, 0]], dtype=complex)
+    ryn = -fams["RY"]
+    combos = []
+    for nm, m in (("-iY", minus_iy), ("iY", plus_iy), ("-I", -I2), ("I", I2.copy())):
+        combos += [("list-int", nm, m), ("int64", nm, m), ("float32", nm + "(exact)", m)]
+    combos += [("list-complex", "iX", 1j * PX), ("list-complex", "Qhalf", QHALF), ("list-complex", "haar", fams["haar"]),
+               ("list-float", "RY", fams["RY"]), ("list-float", "3-4-5", R345),
+               ("tuple", "-iY", minus_iy), ("tuple", "RY", fams["RY"]), ("tuple", "iX", 1j * PX), ("tuple", "haar", fams["haar2"]),
+               ("float64", "RY", fams["RY"]), ("float64", "-RY", ryn), ("float64", "3-4-5", R345),
+               ("float64-negzero", "I", I2.copy()), ("float64-negzero", "-I", -I2), ("float64-negzero", "-iY", minus_iy),
+               ("float32", "3-4-5", R345), ("float32", "RY", fams["RY"]), ("float32", "-RY", ryn),
+               ("complex64", "iX(exact)", 1j * PX), ("complex64", "-iZ(exact)", -1j * PZ), ("complex64", "Qhalf(exact)", QHALF),
+               ("complex64", "haar", fams["haar"]), ("complex64", "main-real", fams["main-real"]), ("complex64", "RZ", fams["RZ"]),
+               ("c128-negzero", "RY", fams["RY"]), ("c128-negzero", "-iY", minus_iy), ("c128-negzero", "-I", -I2),
+               ("c128-negzero", "iZ", 1j * PZ), ("c128-negzero", "iX", 1j * PX), ("c128-negzero", "RX", fams["RX"]),
+               ("npscalars", "RY", fams["RY"]), ("npscalars", "Qhalf", QHALF),
+               ("matrix", "RY", fams["RY"]), ("matrix", "haar", fams["haar"]), ("matrix", "main-real", fams["main-real"]),
+               ("readonly", "-RY", ryn), ("readonly", "haar", fams["haar2"]), ("readonly", "sec-real", fams["sec-real"]),
+               ("view", "haar", fams["haar"]), ("view", "main-real-neg", fams["main-real-neg"]),
+               ("fortran", "sec-real-neg", fams["sec-real-neg"]), ("fortran", "RXZ", fams["RXZ"])]
+    specs = []
+    statics = ("Ldmcsu.ldmcsu", "LdMcSpecialUnitary.ldmcsu", "MultiTargetMCSU2.multi_target_mcsu2", "MultiTargetMCSU2.multi_target_mcsu2")
+    for i, (tag, nm, m) in enumerate(combos):
+        grp = "elem:" + tag
+        rd = is_real_diag_type(m)
+        hows = ("kw", "pos")
+        ks = [2, 3][i % 2]
+        specs.append(div_spec(grp, "Ldmcsu", nm, [m], [tag], ks, div_pattern(r, ks, i), cs_how=hows[i % 2]))
+        if i % 4 == 0:
+            specs.append(div_spec(grp, "Ldmcsu", nm, [m], [tag], 1, ["0", None][(i // 4) % 2]))
+        if i % 7 == 3:
+            specs.append(div_spec(grp, "Ldmcsu", nm, [m], [tag], 4 + (i // 7) % 2, div_pattern(r, 4 + (i // 7) % 2, i + 2)))
+        kp = [3, 2, 1, 4][i % 4]
+        specs.append(div_spec(grp, "LdMcSpecialUnitary", nm, [m], [tag], kp, div_pattern(r, kp, i + 1), cs_how=hows[(i + 1) % 2]))
+        km = [3, 2][i % 2]
+        if rd:
+            specs.append(div_spec(grp, "MultiTargetMCSU2", nm, [m], [tag], km, div_pattern(r, km, i + 2), wrap="list",
+                                  cs_how=hows[i % 2]))
+        if i % 3 == 0 or not rd:
+            specs.append(div_spec(grp, "MultiTargetMCSU2", nm, [m], [tag], 5 - km, div_pattern(r, 5 - km, i + 3), wrap="single"))
+        ent = statics[i % 4]
+        if ent.startswith("Multi"):
+            wrap = "list" if (i % 4 == 2 and rd) else "single"
+        kk = [2, 3, 3, 2][(i // 4) % 4]
+        lay = div_layout(r, kk, 1, 1, kind_c=("ints", "qubits")[(i // 2) % 2],
+                         kind_t=("int", "qubit") [(i // 2) % 2] if not (ent.startswith("Multi") and wrap == "list")
+                         else ("list-int", "list-qubit")[(i // 2) % 2])
+        kw = dict(lay, cs_how=("kw", "pos", "allkw")[i % 3])
+        if ent.startswith("Multi"):
+            kw["wrap"] = wrap
+        specs.append(div_spec(grp, ent, nm, [m], [tag], kk, div_pattern(r, kk, i + 1), **kw))
+    return specs
+
+
+def div_mt_list_specs(ctx):
+    """Family 1 for the LIST of unitaries of MultiTargetMCSU2: containers, mixed element types, one object twice."""
+    r = ctx.rng
+    fams = families(r)
+    minus_iy = np.array([[0, -1], [1, 0]], dtype=complex)
+    lists = [("RY+RZ+-iY", [fams["RY"], fams["RZ"], minus_iy], ["float64", "c128", "int64"]),
+             ("RX+RY", [fams["RX"], fams["RY"]], ["readonly", "matrix"]),
+             ("-RY+iZ", [-fams["RY"], 1j * PZ], ["float64-negzero", "c128-negzero"]),
+             ("main-real+sec-real+RY", [fams["main-real"], fams["sec-real"], fams["RY"]], ["fortran", "view", "float64"]),
+             ("3-4-5+iX", [R345, 1j * PX], ["float32", "complex64"]),
+             ("-iY+RY", [minus_iy, fams["RY"]], ["list-int", "list-float"]),
+             ("RY+RY", [fams["RY"], fams["RY"]], ["float64", "float64"]),
+             ("RX+RX+RX", [fams["RX"]] * 3, ["c128"] * 3)]
+    specs = []
+    for i, (nm, us, forms) in enumerate(lists):
+        nt = len(us)
+        for j, k in enumerate((2, 3) if i % 2 == 0 else (3, 4)):
+            cs = div_pattern(r, k, i + j)
+            same = nm in ("RY+RY", "RX+RX+RX")
+            specs.append(div_spec("mt-list:class", "MultiTargetMCSU2", nm, us, forms, k, cs, wrap="list", same_object=same,
+                                  cs_how=("kw", "pos")[j]))
+            lay = div_layout(r, k, nt, 1, kind_c=("qubits", "ints")[j], kind_t=("list-qubit", "list-int")[j])
+            specs.append(div_spec("mt-list:static", "MultiTargetMCSU2.multi_target_mcsu2", nm, us, forms, k, cs, wrap="list",
+                                  same_object=same, cs_how=("pos", "kw")[j], **lay))
+    us, forms = [fams["RY"], fams["RZ"]], ["c128", "c128"]
+    for wrap in ("tuple", "ndarray3"):
+        for k in (1, 2, 3):
+            specs.append(div_spec("mt-list:container", "MultiTargetMCSU2", "RY+RZ", us, forms, k, None, wrap=wrap))
+        specs.append(div_spec("mt-list:container", "MultiTargetMCSU2.multi_target_mcsu2", "RY+RZ", us, forms, 2, "01", wrap=wrap,
+                              tgt={"kind": "list-int", "q": [["q", 2], ["q", 3]]}))
+        specs.append(div_spec("mt-list:container", "MultiTargetMCSU2", "RY", us[:1], forms[:1], 2, None, wrap=wrap))
+    specs.append(div_spec("mt-list:container", "MultiTargetMCSU2", "-iY", [minus_iy], ["list-int"], 2, None, wrap="single"))
+    return specs
+
+
+def div_rot(axis, t):
+    if axis == "y":
+        return ry(t)
+    if axis == "z":
+        return rz(t)
+    if axis == "x":
+        return rx(t)
+    return math.cos(t / 2) * I2 - 1j * math.sin(t / 2) * (0.6 * PX + 0.8 * PZ)     # XZ axis: eigenbasis path
+
+
+def div_phase_cases(ctx):
+    """Family 3 through the ordinary case runner (tie + oracle): rotation angles beyond one turn, exact multiples of
+    pi, -U of the general class, angle lists summing to 2 pi, lists of +-i Paulis.  RY(2 pi) itself is in probes()."""
+    r = ctx.rng
+    a = away(r, 0.3, 2.8, [math.pi / 2, math.pi], 0.2)
+    two = 2 * math.pi
+    angles = [("2pi+a", two + a), ("-2pi-a", -two - a), ("3pi", 3 * math.pi), ("-3pi", -3 * math.pi), ("4pi", 2 * two),
+              ("-4pi", -2 * two), ("4pi+a", 2 * two + a), ("-2pi", -two), ("6pi-a", 3 * two - a)]
+    cases = []
+    i = 0
+    for an, t in angles:
+        for ax in ("y", "z", "x", "xz"):
+            u = div_rot(ax, t)
+            nm = f"div-R{ax}({an})"
+            ctx.count("diversity:phase:angle beyond one turn" if "a" in an else "diversity:phase:exact multiple of pi")
+            for cls in ("Ldmcsu", "LdMcSpecialUnitary"):
+                k = 2 + (i % 2)
+                cases.append((cls, nm, [u], k, [None, mixed_pattern(k)][(i // 2) % 2], True))
+                if i % 6 == 0:
+                    cases.append((cls, nm, [u], 1, "0", True))
+                i += 1
+            if is_real_diag_type(u):
+                k = 2 + (i % 2)
+                cases.append(("MultiTargetMCSU2", nm + "+RZ0.4", [u, rz(0.4)][:: 1 if i % 4 < 2 else -1], k, mixed_pattern(k), True))
+    fams = families(r)
+    for nm, u in (("div-haar-neg", -fams["haar"]), ("div-RXZ-neg", -fams["RXZ"]), ("div-Qhalf", QHALF), ("div-Qhalf-neg", -QHALF),
+                  ("div-iH-neg", -1j * HAD)):
+        ctx.count("diversity:phase:-U general class")
+        for k, cs in ((1, None), (2, "01"), (3, None), (4, "0110")):
+            cases.append(("Ldmcsu", nm, [u], k, cs, True))
+            cases.append(("LdMcSpecialUnitary", nm, [u], k, cs, True))
+    lists = [("div-RY(a)+RY(2pi-a)", [ry(a), ry(two - a)]), ("div-RZpi+RZpi", [rz(math.pi), rz(math.pi)]),
+             ("div-3xRY(2pi/3)", [ry(two / 3)] * 3), ("div-RY(2pi+a)+RX(-2pi-a)+RZ(4pi+a)", [ry(two + a), rx(-two - a), rz(2 * two + a)]),
+             ("div-iX+-iX", [1j * PX, -1j * PX]), ("div-iZ+iY+-I", [1j * PZ, 1j * PY, -I2]), ("div--iZ+-iY", [-1j * PZ, -1j * PY]),
+             ("div-RY(a)+RY(a)+RY(2pi-2a)", [ry(a), ry(a), ry(two - 2 * a)])]
+    for j, (nm, us) in enumerate(lists):
+        ctx.count("diversity:phase:multitarget list (sum 2pi / +-i Paulis)")
+        for k in (2, 3):
+            cases.append(("MultiTargetMCSU2", nm, us, k, [None, mixed_pattern(k)][(j + k) % 2], True))
+        if j % 3 == 0:
+            cases.append(("MultiTargetMCSU2", nm, us, 1, "0", True))
+    return cases
+
+
+def div_call_specs(ctx):
+    """Families 4 and 5: call forms of the classes and of the four static helpers on larger hosts, k = 1..5, nt = 1..3."""
+    r = ctx.rng
+    fams = families(r)
+    a = away(r, 0.3, 2.8, [math.pi / 2, math.pi], 0.2)
+    two = 2 * math.pi
+    pool = [("RY", fams["RY"]), ("main-real", fams["main-real"]), ("sec-real", fams["sec-real"]), ("haar", fams["haar"]),
+            ("iX", 1j * PX), ("-RY", -fams["RY"]), ("RXZ", fams["RXZ"]), ("-iZ", -1j * PZ), ("RX(2pi+a)", rx(two + a)),
+            ("RZ(-2pi-a)", rz(-two - a)), ("RXZ(3pi)", div_rot("xz", 3 * math.pi)), ("RY(4pi+a)", ry(2 * two + a))]
+    rd_pool = [p for p in pool if is_real_diag_type(p[1])]
+    orders = (["t", "a", "c"], ["a", "c", "t"], ["c", "a", "t"])
+    specs = []
+    i = 0
+    # -- the gate classes: how the gate object is used
+    uses = ("append", "twice", "copy-first", "inverse", "to_instruction", "compose", "reuse", "to_gate")
+    for entry in ("Ldmcsu", "LdMcSpecialUnitary"):
+        for use in uses:
+            for k in (1, 2, 3, 4, 5):
+                if k == 5 and use in ("twice", "reuse", "to_gate"):
+                    continue
+                nm, u = pool[i % len(pool)]
+                cs = div_pattern_call(r, k, i)
+                how = ("kw", "pos", "omit")[i % 3] if cs is None else ("kw", "pos")[i % 2]
+                if i % 3 == 2:
+                    lay = div_reg_host(r, k, 1, orders[(i // 3) % 3], ("register", "slice-rev", "qubits", "slice-lo")[(i // 3) % 4],
+                                       ("qubit", "qubit-last")[(i // 3) % 2])
+                else:
+                    lay = div_layout(r, k, 1, 1 + (i % 2 if k < 5 else 0), kind_c=("ints", "qubits")[i % 2])
+                specs.append(div_spec("call:class:" + use, entry, nm, [u], ["c128"], k, cs, use=use, cs_how=how, **lay))
+                i += 1
+    for use in uses:
+        for k in (1, 2, 3, 4):
+            nt = 1 + (i % 3)
+            if k + nt > 6 and use in ("twice", "reuse", "copy-first"):
+                nt = 1
+            if use == "reuse":
+                continue
+            sel = [rd_pool[(i + j) % len(rd_pool)] for j in range(nt)]
+            cs = div_pattern_call(r, k, i)
+            how = ("kw", "pos", "omit")[i % 3] if cs is None else ("kw", "pos")[i % 2]
+            if i % 3 == 1:
+                lay = div_reg_host(r, k, nt, orders[(i // 3) % 3], ("register", "slice-rev", "qubits", "slice-lo")[(i // 3) % 4],
+                                   ("register", "slice-rev", "list-qubit")[(i // 3) % 3])
+            else:
+                lay = div_layout(r, k, nt, 1, kind_c=("ints", "qubits")[i % 2])
+            specs.append(div_spec("call:class:" + use, "MultiTargetMCSU2", "+".join(s[0] for s in sel), [s[1] for s in sel],
+                                  ["c128"] * nt, k, cs, use=use, cs_how=how, wrap="list", **lay))
+            if use in ("inverse", "copy-first", "twice") and k in (2, 3):
+                nm, u = pool[(i + 3) % len(pool)]
+                specs.append(div_spec("call:class:" + use, "MultiTargetMCSU2", nm, [u], ["c128"], k, cs, use=use, cs_how=how,
+                                      wrap="single", **div_layout(r, k, 1, 1, kind_c=("qubits", "ints")[i % 2])))
+            i += 1
+    # -- int ctrl_state (annotated `str`; qiskit's own controlled gate takes ints, hence k = 1 of Ldmcsu / MultiTarget works)
+    for entry in DIV_CLASSES:
+        for k, cs in ((1, 0), (2, 1), (3, 5), (2, 3)):
+            nm, u = rd_pool[(i + k) % len(rd_pool)]
+            specs.append(div_spec("call:int ctrl_state", entry, nm, [u], ["c128"], k, cs, cs_how=("kw", "pos")[k % 2],
+                                  **({"wrap": "list"} if entry.startswith("Multi") else {})))
+    # -- regression F-C04-13: decimal ctrl_state through apply_ctrl_state (LdMcSpecialUnitary), int and np.int64, every
+    #    k = 1..5 (mcx pair, LinearMcx with and without action_only), class and static helper on a permuted host
+    for j, (k, cs) in enumerate(((1, 0), (2, 2), (3, 3), (3, 6), (4, 5), (5, 22), (2, 0), (4, 15))):
+        nm, u = pool[(i + j) % len(pool)]
+        ct = {"cs_type": "np.int64"} if j % 2 else {}
+        specs.append(div_spec("regression:F-C04-13", "LdMcSpecialUnitary", nm, [u], ["c128"], k, cs,
+                              cs_how=("kw", "pos")[j % 2], use=("append", "copy-first", "inverse", "twice")[j % 4], **ct,
+                              **div_layout(r, k, 1, 1, kind_c=("ints", "qubits")[j % 2])))
+        if k <= 4:
+            specs.append(div_spec("regression:F-C04-13", "LdMcSpecialUnitary.ldmcsu", nm, [u], ["c128"], k, cs,
+                                  cs_how=("pos", "kw", "allkw")[j % 3], **ct,
+                                  **div_layout(r, k, 1, 1, kind_c=("qubits", "ints")[j % 2], kind_t=("qubit", "int")[j % 2])))
+    # -- regression F-C04-14: the matrix of Ldmcsu as a nested Python sequence, k >= 2 (every branch class: the branch
+    #    tests index the matrix), through each way that reaches Ldmcsu
+    seq = [("list-int", "-iY", np.array([[0, -1], [1, 0]], dtype=complex)), ("list-float", "RY", fams["RY"]),
+           ("list-complex", "main-real", fams["main-real"]), ("tuple", "sec-real", fams["sec-real"]),
+           ("npscalars", "haar", fams["haar"]), ("tuple", "RXZ", fams["RXZ"]), ("list-complex", "-iZ", -1j * PZ),
+           ("list-int", "-I", -I2)]
+    for j, (tag, nm, m) in enumerate(seq):
+        k = 2 + j % 3
+        cs = div_pattern_call(r, k, j)
+        specs.append(div_spec("regression:F-C04-14", "Ldmcsu", nm, [m], [tag], k, cs,
+                              use=("append", "copy-first", "inverse", "to_instruction")[j % 4],
+                              **div_layout(r, k, 1, 1, kind_c=("ints", "qubits")[j % 2])))
+        specs.append(div_spec("regression:F-C04-14", "Ldmcsu.ldmcsu", nm, [m], [tag], k, cs, cs_how=("kw", "pos")[j % 2],
+                              **div_layout(r, k, 1, 1, kind_c=("qubits", "ints")[j % 2], kind_t=("qubit", "int")[j % 2])))
+        if tag == "tuple":          # a bare nested LIST would be read as a list of unitaries
+            specs.append(div_spec("regression:F-C04-14", "MultiTargetMCSU2", nm, [m], [tag], k, cs, wrap="single"))
+            specs.append(div_spec("regression:F-C04-14", "MultiTargetMCSU2.multi_target_mcsu2", nm, [m], [tag], k, cs,
+                                  wrap="single", **div_layout(r, k, 1, 1, kind_c="ints", kind_t="int")))
+    # -- regression F-C04-15: nested Python sequences as ELEMENTS of the list of unitaries (the branch tests and
+    #    _get_x_z index every element), alone, mixed with arrays, one list object twice; k = 1..5, nt = 1..3
+    minus_iy = np.array([[0, -1], [1, 0]], dtype=complex)
+    elists = [("-iY", [minus_iy], ["list-int"], False),
+              ("RY+sec-real", [fams["RY"], fams["sec-real"]], ["list-float", "tuple"], False),
+              ("main-real+RY+-I", [fams["main-real"], fams["RY"], -I2], ["list-complex", "npscalars", "list-int"], False),
+              ("-iY+RZ", [minus_iy, fams["RZ"]], ["tuple", "c128"], False),
+              ("RX+iX+RY", [fams["RX"], 1j * PX, fams["RY"]], ["npscalars", "list-complex", "float64"], False),
+              ("RY+RY", [fams["RY"], fams["RY"]], ["list-float", "list-float"], True),
+              ("-iZ", [-1j * PZ], ["list-complex"], False),
+              ("iY+main-real-neg", [np.array([[0, 1], [-1, 0]], dtype=complex), fams["main-real-neg"]], ["tuple", "tuple"], False)]
+    uses4 = ("append", "copy-first", "inverse", "twice")
+    for j, (nm, us, forms, same) in enumerate(elists):
+        nt = len(us)
+        for jj in range(2):
+            k = 1 + (2 * j + jj) % 5
+            cs = div_pattern_call(r, k, j + 2 * jj)
+            idle = 1 if k + nt <= 6 else 0
+            specs.append(div_spec("regression:F-C04-15", "MultiTargetMCSU2", nm, us, forms, k, cs, wrap="list", same_object=same,
+                                  use=uses4[(j + jj) % 4], cs_how=("kw", "pos")[jj],
+                                  **div_layout(r, k, nt, idle, kind_c=("ints", "qubits")[(j + jj) % 2])))
+            specs.append(div_spec("regression:F-C04-15", "MultiTargetMCSU2.multi_target_mcsu2", nm, us, forms, k, cs, wrap="list",
+                                  same_object=same, use=("append", "twice")[(j + jj) % 3 == 2], cs_how=("pos", "kw", "allkw")[(j + jj) % 3],
+                                  **div_layout(r, k, nt, idle, kind_c=("qubits", "ints")[(j + jj) % 2],
+                                               kind_t=("list-qubit", "list-int")[(j + jj) % 2])))
+    # -- regression F-C04-16: decimal ctrl_state (int, np.int64) of MultiTargetMCSU2 - list and bare matrix - and of the
+    #    static helper's list branch; the pattern string the model gets is the zero-padded binary form
+    for j, (k, cs) in enumerate(((1, 0), (2, 1), (3, 5), (3, 6), (4, 5), (5, 22), (2, 2), (4, 8), (5, 9), (1, 1))):
+        nt = 1 + j % 3
+        sel = [rd_pool[(i + j + t) % len(rd_pool)] for t in range(nt)]
+        ct = {"cs_type": "np.int64"} if j % 2 else {}
+        idle = 1 if k + nt <= 6 else 0
+        nm, us = "+".join(x[0] for x in sel), [x[1] for x in sel]
+        specs.append(div_spec("regression:F-C04-16", "MultiTargetMCSU2", nm, us, ["c128"] * nt, k, cs, wrap="list",
+                              use=uses4[j % 4], cs_how=("kw", "pos")[j % 2], **ct,
+                              **div_layout(r, k, nt, idle, kind_c=("ints", "qubits")[j % 2])))
+        specs.append(div_spec("regression:F-C04-16", "MultiTargetMCSU2.multi_target_mcsu2", nm, us, ["c128"] * nt, k, cs, wrap="list",
+                              cs_how=("pos", "kw", "allkw")[j % 3], **ct,
+                              **div_layout(r, k, nt, idle, kind_c=("qubits", "ints")[j % 2], kind_t=("list-qubit", "list-int")[j % 2])))
+        if j % 2 == 0:
+            pn, pu = pool[(i + j) % len(pool)]
+            specs.append(div_spec("regression:F-C04-16", "MultiTargetMCSU2", pn, [pu], ["c128"], k, cs, wrap="single",
+                                  use=uses4[(j // 2) % 4], cs_how=("pos", "kw")[(j // 2) % 2], **ct,
+                                  **div_layout(r, k, 1, 1, kind_c=("qubits", "ints")[(j // 2) % 2])))
+    for k, cs in ((1, 0), (2, 1), (3, 5)):     # bare matrix through the static helper: the int reaches Ldmcsu (undocumented there)
+        specs.append(div_spec("call:int ctrl_state", "MultiTargetMCSU2.multi_target_mcsu2", "RY", [fams["RY"]], ["c128"], k, cs,
+                              wrap="single"))
+    # -- the static helpers: controls / target forms, ctrl_state positional / keyword / omitted, every keyword at once
+    ctrl_forms = ("ints", "qubits", "tuple-qubit", "register", "slice-rev", "slice-lo", "slice-rev-part")
+    for entry in ("Ldmcsu.ldmcsu", "LdMcSpecialUnitary.ldmcsu", "MultiTargetMCSU2.multi_target_mcsu2:single",
+                  "MultiTargetMCSU2.multi_target_mcsu2:list"):
+        ent, _, wrap = entry.partition(":")
+        for cf in ctrl_forms:
+            for k in (1, 2, 3, 4):
+                if (cf in ("slice-lo", "slice-rev-part", "tuple-qubit") and k in (1, 4)) or (k == 4 and cf == "register"):
+                    continue
+                nt = 1 if wrap != "list" else 1 + (i % 3)
+                src = rd_pool if wrap == "list" else pool
+                sel = [src[(i + j) % len(src)] for j in range(nt)]
+                cs = div_pattern_call(r, k, i)
+                how = ("omit", "kw", "pos", "allkw")[i % 4] if cs is None else ("kw", "pos", "allkw")[i % 3]
+                if cf in ("ints", "qubits", "tuple-qubit"):
+                    kt = {"ints": ("int", "list-int"), "qubits": ("qubit", "list-qubit"), "tuple-qubit": ("qubit", "list-qubit")}[cf]
+                    lay = div_layout(r, k, nt, 1 + i % 2, kind_c=cf, kind_t=kt[1] if (wrap == "list" or i % 5 == 0) else kt[0])
+                else:
+                    tf = ("register", "slice-rev", "list-qubit", "list-int", "slice-rev-part")[i % 5] if wrap == "list" else \
+                        ("qubit", "qubit-last", "int")[i % 3]
+                    lay = div_reg_host(r, k, nt, orders[i % 3], cf, tf)
+                kw = dict(lay, cs_how=how, use="twice" if i % 11 == 5 else "append")
+                if wrap:
+                    kw["wrap"] = wrap
+                specs.append(div_spec("call:static:" + cf, ent, "+".join(s[0] for s in sel), [s[1] for s in sel], ["c128"] * nt,
+                                      k, cs, **kw))
+                i += 1
+    return specs
+
+
+def diversity_helpers(ctx):
+    """Family 1 / 3 for the helper functions: `_get_x_z` on non-complex128 arrays, `_compute_gate_a` on Python / numpy
+    scalars of every kind, `get_abc_operators` on integer / numpy / beyond-one-turn angles.  Tied to the same model ops
+    as the complex128 / float forms, plus the defining identities."""
+    from qclib.gates.ldmcsu import Ldmcsu, LdMcSpecialUnitary
+    r = ctx.rng
+    fams = families(r)
+    minus_iy = np.array([[0, -1], [1, 0]], dtype=complex)
+    rep = {"part": "su2", "probe": "diversity-helpers"}
+    for tag, nm, m in (("int64", "-iY", minus_iy), ("int64", "-I", -I2), ("float64", "RY", fams["RY"]), ("float64", "-RY", -fams["RY"]),
+                       ("float64-negzero", "I", I2), ("c128-negzero", "iX", 1j * PX), ("c128-negzero", "RY", fams["RY"]),
+                       ("matrix", "haar", fams["haar"]), ("matrix", "RY", fams["RY"]), ("readonly", "main-real", fams["main-real"]),
+                       ("view", "sec-real", fams["sec-real"]), ("float32", "-iY", minus_iy), ("float32", "3-4-5", R345),
+                       ("complex64", "iX", 1j * PX), ("complex64", "haar", fams["haar"])):
+        raw = to_form(m, tag)
+        snap = snapshot(raw)
+        key = f"diversity:Ldmcsu._get_x_z:%s:{tag}:{nm}"
+        ctx.count("diversity:helpers:_get_x_z:" + tag)
+        try:
+            x, z = Ldmcsu._get_x_z(raw)
+            x, z = float(np.real(x)), complex(z)
+        except Exception as e:
+            ctx.fail(key % ("raises-" + type(e).__name__), f"_get_x_z({nm} as {tag}) raised {type(e).__name__}: {str(e)[:120]}", rep)
+            continue
+        up = np.array(raw, dtype=complex)
+        x0, z0 = Ldmcsu._get_x_z(up)
+        tol = 1e-6 if tag in REDUCED_FORMS else 1e-12
+        if snapshot(raw) != snap:
+            ctx.fail(key % "caller-input-modified", "the matrix was modified", rep)
+        if abs(x - x0) > tol or abs(z - z0) > tol:
+            ctx.fail(key % "mismatch", f"_get_x_z({nm} as {tag}) = ({x}, {z}), complex128 form gives ({x0}, {z0})", rep)
+        else:
+            ctx.ok(key % "ok", nontrivial=False)
+        if tag not in REDUCED_FORMS:
+            ctx.tie({"op": "get_x_z", "u": mflat(up)}, [f"xz ; {x!r} {z.real!r} {z.imag!r}"], label=f"diversity _get_x_z {nm} as {tag}")
+    s = math.sqrt(0.5)
+    scal = [("int", 0, 1), ("int", 0, -1), ("int", 1, 0), ("int", -1, 0), ("int+complex", 0, 1j), ("int+complex", 0, -1j),
+            ("float", 0.6, 0.8), ("float", -0.6, 0.8), ("float", 0.6, -0.8), ("float+complex", -0.6, 0.8j), ("float+complex", 0.6, complex(0.0, -0.8)),
+            ("float+complex-negzero", -0.0, complex(-0.0, 1.0)), ("float+complex-negzero", 0.6, complex(0.8, -0.0)),
+            ("np.int64", np.int64(0), np.int64(-1)), ("np.int64", np.int64(-1), np.int64(0)),
+            ("np.float64", np.float64(s), np.float64(-s)), ("np.float64+np.complex128", np.float64(-0.6), np.complex128(0.8j)),
+            ("np.float32", np.float32(1.0), np.float32(0.0)), ("np.float32", np.float32(0.0), np.float32(-1.0)),
+            ("np.float32", np.float32(0.6), np.float32(0.8)), ("np.float32+np.complex64", np.float32(0.0), np.complex64(1j)),
+            ("np.float32+np.complex64", np.float32(0.6), np.complex64(-0.8j))]
+    for tag, x, z in scal:
+        key = f"diversity:Ldmcsu._compute_gate_a:%s:{tag}:x={x!r}:z={z!r}"
+        ctx.count("diversity:helpers:_compute_gate_a:" + tag)
+        try:
+            with warnings.catch_warnings():
+                warnings.simplefilter("ignore")
+                a = np.asarray(Ldmcsu._compute_gate_a(x, z), dtype=complex)
+        except Exception as e:
+            ctx.fail(key % ("raises-" + type(e).__name__), f"_compute_gate_a({x!r}, {z!r}) raised {type(e).__name__}: {str(e)[:120]}", rep)
+            continue
+        xf, zf = float(x), complex(z)
+        w = np.array([[np.conj(zf), xf], [-xf, zf]])
+        p = a.conj().T @ PX @ a @ PX
+        reduced = "32" in tag or "64+np.complex64" in tag
+        tol = 1e-5 if reduced else 1e-9
+        ctx.assumption_checks += 1
+        if not (np.abs(p @ p - w).max() <= tol and np.abs(a @ a.conj().T - I2).max() <= tol):
+            ctx.fail(key % "identity", "(A^dagger X A X)^2 != [[conj z, x],[-x, z]] or A not unitary", rep)
+        else:
+            ctx.ok(key % "ok", nontrivial=False)
+        if not reduced:
+            ctx.tie({"op": "gate_a", "x": xf, "zre": zf.real, "zim": zf.imag}, ["op_a ; " + mline(a)],
+                    label=f"diversity _compute_gate_a {tag} x={x!r} z={z!r}")
+    two = 2 * math.pi
+    angs = [("int", (1, 3, 5)), ("int", (0, 0, 0)), ("int", (-7, 2, 9)), ("int", (13, -20, 7)), ("np.int64", tuple(np.int64(v) for v in (1, 2, 3))),
+            ("np.float64", tuple(np.float64(v) for v in (0.5, 1.5, -2.5))), ("np.float32", tuple(np.float32(v) for v in (0.5, 1.5, -2.5))),
+            ("float>=2pi", (two + 0.3, two + 1.1, -two - 0.7)), ("float=+-2pi", (two, -two, two)), ("float=+-4pi", (2 * two, 0.9, -2 * two)),
+            ("float:sum=2pi", (0.7, 1.3, two - 0.7)), ("float:3pi", (3 * math.pi, 1.0, -3 * math.pi)), ("mixed", (1, np.float64(0.25), 2.5))]
+    for tag, (b, g, d) in angs:
+        key = f"diversity:LdMcSpecialUnitary.get_abc_operators:%s:{tag}:{b!r},{g!r},{d!r}"
+        ctx.count("diversity:helpers:get_abc_operators:" + tag)
+        try:
+            ga, gb, gc = LdMcSpecialUnitary.get_abc_operators(b, g, d)
+            am, bm, cm = ga.to_matrix(), gb.to_matrix(), gc.to_matrix()
+        except Exception as e:
+            ctx.fail(key % ("raises-" + type(e).__name__), f"get_abc_operators({b!r}, {g!r}, {d!r}) raised {type(e).__name__}: {str(e)[:120]}", rep)
+            continue
+        bf, gf, df = float(b), float(g), float(d)
+        want = rz(bf) @ ry(gf) @ rz(df)
+        ctx.assumption_checks += 1
+        if not (np.abs(am @ bm @ cm - I2).max() <= 1e-9 and np.abs(am @ PX @ bm @ PX @ cm - want).max() <= 1e-9):
+            ctx.fail(key % "identity", "ABC != I or A X B X C != RZ(beta) RY(gamma) RZ(delta)", rep)
+        else:
+            ctx.ok(key % "ok", nontrivial=False)
+        ctx.tie({"op": "abc", "zyz": [gf, bf, df]}, ["A ; " + mline(am), "B ; " + mline(bm), "C ; " + mline(cm)],
+                label=f"diversity get_abc_operators {tag} {b!r},{g!r},{d!r}")
+
+
+def diversity(ctx):
+    diversity_helpers(ctx)
+    run_cases(ctx, div_phase_cases(ctx))
+    div_run(ctx, div_elem_specs(ctx) + div_mt_list_specs(ctx) + div_call_specs(ctx))
+
+
 def run(ctx, scale=0):
     ctx.notes.append("MultiTargetMCSU2 oracle restricted to unitaries with a real main or secondary diagonal; for general "
                      "SU(2) the code raises ValueError (no eigenbasis path) - outside the property ('each listed rotation').")
@@ -925,6 +1786,12 @@ def run(ctx, scale=0):
     ctx.notes.append("zero controls (outside the quantifier 1..K): only the classes with an explicit num_controls == 0 branch are "
                      "probed there (LdMcSpecialUnitary, MCU; Ldmcu/Mcg are tied from k=0).  Ldmcsu(U, 0) and "
                      "MultiTargetMCSU2(., 0) have no such branch and build a one-qubit circuit that is not U - not generated.")
+    ctx.notes.append("input-diversity cases: float32 / complex64 matrices are compared with the ideal of the up-cast input to 1e-5 "
+                     "(Ldmcsu / MultiTargetMCSU2 keep the caller's dtype, the fourth-root gate is then computed in single "
+                     "precision: up to 1.5e-7 even for exactly representable members) or may be rejected by check_u2; nested "
+                     "Python sequences (Ldmcsu, MultiTargetMCSU2, k >= 2), tuple / 3-D array of unitaries, int ctrl_state and "
+                     "definition.to_gate() are unsupported forms that must end in their recorded exception or be right; x = 0, "
+                     "z = -1 - (dust)i (rotation by exactly -2 pi about z) is on the fourth-root cut: oracle only, no tie.")
     intermediates(ctx)
     quick = ctx.quick and not scale
     slices_tie(ctx, 9 if quick else 12)
@@ -938,6 +1805,7 @@ def run(ctx, scale=0):
     run_cases(ctx, boundary_cases(ctx))
     underflow_probe(ctx)
     probes(ctx)
+    diversity(ctx)
     if U2 is not None:
         U2.run(ctx)
 
@@ -969,6 +1837,7 @@ def search(ctx, hints):
     run_cases(ctx, cases[:200])
     intermediates(ctx)
     probes(ctx)
+    diversity(ctx)
     run_cases(ctx, gen_cases(ctx, kmax_tie=8, kmax_oracle=9, exhaustive_k=5, exhaustive_fams_k=4))
     if U2 is not None:
         U2.search(ctx, hints)
@@ -979,6 +1848,12 @@ def replay(ctx, payload):
     if r.get("part") == "u2":
         if U2 is not None:
             U2.replay(ctx, r)
+        return
+    if r.get("probe") == "diversity":
+        div_record(ctx, r, div_eval(r))
+        return
+    if r.get("probe") == "diversity-helpers":
+        diversity_helpers(ctx)
         return
     if r.get("probe") == "single-unitary":
         single_unitary_probe(ctx)
